@@ -83,6 +83,7 @@ def gen_cases(ctx, n, maxdim):
             if dim >= 2 and r.random() < 0.4:
                 # the third kinetic-energy kind (MCLMC's ESH dynamics) is only driven step by step
                 c["kind"] = "microcanonical"
+                c["step_size"] = r.choice([0.03125, 0.0625, 0.125, 0.25])
         cases.append(c)
     return cases
 
@@ -170,9 +171,25 @@ def oracle_reversible(c, d):
     if not d.get("single_steps") or len(d["leapfrogs"]) != len(c["single_steps"]) or any(lf["diverged"] for lf in d["leapfrogs"]):
         return bad
     a, b = d["init"], d["final"]
+    tol = 1e-9
+    if c["kind"] == "microcanonical":
+        # the ESH update with exp(+delta) undoes the one with exp(-delta) exactly, but it amplifies
+        # rounding errors by about exp(2 delta): judge with a tolerance that follows the
+        # conditioning of the path and not at all when it is hopeless
+        n = c["dim"]
+        amp = 0.0
+        for lf in d["leapfrogs"]:
+            h = abs(c["step_size"] * lf.get("factor", 1.0))
+            gn = math.sqrt(sum(b2f(x) ** 2 for x in lf["tg"]))
+            amp += 2.0 * h * math.sqrt(n) / 2 * gn / max(n - 1, 1)
+        gn0 = math.sqrt(sum(b2f(x) ** 2 for x in a["tg"]))
+        amp += 2.0 * abs(c["step_size"]) * math.sqrt(n) / 2 * gn0 / max(n - 1, 1)
+        if amp > 12.0:
+            return bad
+        tol = 1e-9 * math.exp(amp)
     for key in ("q", "v", "x"):
         for i, (u, w) in enumerate(zip(a[key], b[key])):
-            if abs(b2f(u) - b2f(w)) > 1e-9 * (1 + abs(b2f(u))):
+            if abs(b2f(u) - b2f(w)) > tol * (1 + abs(b2f(u))):
                 bad.append("steps %s then back: %s[%d] returns to %r instead of %r" % (c["single_steps"][:len(c["single_steps"]) // 2], key, i, b2f(w), b2f(u)))
                 return bad
     return bad
@@ -206,9 +223,14 @@ def oracle_micro(c, d):
         p1 = esh_ref(g0, p0, math.sqrt(n) * h / 2)
         q1 = [a + h * math.sqrt(n) * b for a, b in zip(q0, p1)]
         p2 = esh_ref(g1, p1, math.sqrt(n) * h / 2)
+        gmax = max(math.sqrt(sum(x * x for x in g0)), math.sqrt(sum(x * x for x in g1)))
+        dl = abs(h) * math.sqrt(n) / 2 * gmax / max(n - 1, 1)
+        if dl > 12.0:
+            continue
+        tolm = 1e-9 * max(1.0, math.exp(2 * dl))
         for name, want, got in (("whitened position", q1, lf["q"]), ("momentum", p2, lf["v"])):
             for i, (a, b) in enumerate(zip(want, got)):
-                if abs(a - b2f(b)) > 1e-9 * (1 + abs(a)):
+                if abs(a - b2f(b)) > tolm * (1 + abs(a)):
                     bad.append("microcanonical step %d -> %d (factor %s): %s[%d] is %r, the ESH leapfrog gives %r" % (
                         lf["start_idx"], lf["idx"], lf.get("factor", 1.0), name, i, b2f(b), a))
                     return bad
